@@ -746,3 +746,52 @@ Proof.
   pose proof (mt_gen_ok FUEL reent dflt prog scen (length vops) FUEL_ge Hs Hp Hv) as H.
   rewrite (model_trace_gen _ _ _ _ _ _ _ _ _ _ _ _ _ _ Hm) in H. exact H.
 Qed.
+
+(* ---------- the contract hypothesis in static form ---------------------------------------------------- *)
+
+Lemma init_cfg_ok reent dflt prog :
+  (forall c, In c prog -> call_obj c = 0) -> prog_okb (S (length prog)) [] prog = true ->
+  cfg_ok [(1, reent, dflt); (2, false, TNeg); (0, false, TNeg)] [(1, prog); (2, []); (0, [])] = true.
+Proof.
+  intros Hp Hk. unfold cfg_ok. cbn [forallb snd fst length]. rewrite Hk. cbn [prog_okb andb].
+  replace (forallb _ prog) with true; [reflexivity|]. symmetry. apply forallb_forall. intros c Hc. rewrite (Hp c Hc). reflexivity.
+Qed.
+
+Lemma W_pop_acq s t o m blk tm poll :
+  W s -> t_pc (thr s t) = PIdle -> t_cs (thr s t) = [] -> o_proc (objs s o) = t_proc (thr s t) ->
+  W (pop_prog s t [CAcq o m blk tm poll 0]).
+Proof.
+  intros [Hw Hp] Hpc Hcs Hpr. split.
+  - intros t'. destruct (Nat.eq_dec t' t) as [->|Hn].
+    + unfold wf_thr, pop_prog. cbn. rewrite upd_same. cbn. rewrite Hpc, Hcs. constructor; constructor.
+    + unfold pop_prog. cbn. rewrite upd_other by auto. apply Hw.
+  - intros t' c. destruct (Nat.eq_dec t' t) as [->|Hn].
+    + unfold pop_prog. cbn. rewrite upd_same. cbn. intros [<-|[]]. exact Hpr.
+    + unfold pop_prog. cbn. rewrite upd_other by auto. apply Hp.
+Qed.
+
+Lemma victim_viol fuel reent dflt prog scen k :
+  (forall c, In c prog -> call_obj c = 0) -> prog_okb (S (length prog)) [] prog = true ->
+  viol (victim_end fuel reent dflt prog scen k) = false.
+Proof.
+  intros Hp Hk. unfold victim_end. pose proof (init_cfg_ok reent dflt prog Hp Hk) as Hc.
+  rewrite init_is_cfg. set (s0 := init_cfg _ _ []).
+  assert (I0 : Inv s0) by apply Inv_init. assert (W0 : W s0) by (apply W_init; exact Hc).
+  destruct (Nat.eqb scen 1).
+  - unfold do_call. set (sp := pop_prog s0 1 [acq_blk 1]).
+    destruct (run_alone_run 1 fuel sp) as (e1 & E1). rewrite E1.
+    destruct (run_k_run 0 k (run sp e1)) as (e2 & E2). rewrite E2, <- run_app.
+    apply W_run; [apply Inv_pop; auto| |reflexivity].
+    apply W_pop_acq; auto.
+  - destruct (run_k_run 0 k s0) as (e2 & E2). rewrite E2. apply W_run; auto.
+Qed.
+
+Theorem monitor_complete_static_C13_lemma :
+  forall reent dflt prog scen vops vres a b c ops rs wh p1 p2,
+    scen <= 2 -> (forall cl, In cl prog -> call_obj cl = 0) -> prog_okb (S (length prog)) [] prog = true ->
+    model_trace (CCrash reent dflt prog scen false vops vres true a b c) = (ops, rs, wh, p1, p2) ->
+    ok (CCrash reent dflt prog scen false vops vres true wh p1 p2) = true.
+Proof.
+  intros reent dflt prog scen vops vres a b c ops rs wh p1 p2 Hs Hp Hk Hm.
+  eapply monitor_complete_C13_lemma; eauto. apply victim_viol; auto.
+Qed.
